@@ -52,15 +52,13 @@ RULES = [
   (r'bitstr_ext::word_find', r'Overflow\((Add|Mul)\)', r'', '-', 'pos is a byte offset returned by memmem::find inside rest_bytes: pos*8 < rest.len() and start + pos*8 < end'),
   (r'bitstr_ext::write_dump_position|state::State::pretty_error', r'call:unwrap', r'write_fmt', '-', 'write! into a String cannot fail'),
   (r'file::fs_overlay::exec_piped', r'call:unwrap', r'', '-', 'the child was spawned with Stdio::piped() for stdin, so stdin.take() is Some'),
-  (r'lex::Lex::(last_substr|next|peek_char)$|lex::Lex::next::\{closure#[013]\}', r'call:str-index', r'', '-', I_CHAR),
-  (r'lex::Lex::next$', r'Overflow\(Shr\)', r'', '-', 'x >> i with i in (0..4).rev() on a u32 hex digit'),
   (r'lex::token_location', r'.*', r'', '-', 'i and i + len_utf8 come from char_indices of the parent string: char boundaries within the buffer; start/end are taken from those'),
   (r'opcodes::RelativeJump::calculate', r'Overflow\(Add\)', r'', '-', 'ip < code.len() < 2^56 widened to isize plus an i32 offset'),
   (r'opcodes::RelativeJump::from_to', r'OverflowNeg', r'', 'Gt(arg1, arg2)', 'origin - dest is a distance between two code positions (< 2^56): positive isize, negation cannot overflow'),
   (r'state::State::backpatch$', r'call:index:index_mut', r'', '-', 'origins stored in pending flows / taken from code_origin() in the same word index instructions already emitted (C01.R2); build_abort truncates code and flows together (C10.R1)'),
   (r'state::State::backpatch_jump', r'panic:panic_fmt', r'', '-', 'D-VARIANT: every placeholder kind recorded in a flow that is patched through backpatch_jump is one it accepts (checked on every run by C01.R2 opcode-accepted)'),
   (r'state::State::build_abort', r'Overflow\(Add\)', r'', 'Gt(Vec::<T, A>::len(&(*arg1).nested), arg2.0)', 'depth < nested.len()'),
-  (r'state::State::code_emit', r'panic:panic_fmt', r'', 'Ne(Vec::<T, A>::len(&(*arg1).code)', 'code.len() <= debug_map.len() always: both grow together in code_emit and are truncated together (checked on every run by C17.R1)'),
+  (r'state::State::code_emit', r'panic:panic_fmt', r'', '?gt:Vec::<T, A>::len(&(*arg1).code):Vec::<T, A>::len(&(*arg1).debug_map)', 'code.len() <= debug_map.len() always: both grow together in code_emit and are truncated together (checked on every run by C17.R1)'),
   (r'state::State::context_close', r'call:index:index', r'flow_stack', '-', 'prev.fs_len is the flow mark of the enclosing context: ' + I_FLOOR),
   (r'state::State::(data_depth|over_data|rot_data|swap_data|reverse_changes)$', r'Overflow\(Sub\)', r'data_stack\),\(\*arg1\)\.ctx\.ds_len', '-', I_STACK),
   (r'state::State::fetch_and_run', r'call:index:index', r'\.code,state::State::ip', '-', 'run/next call fetch_and_run only while is_running() (ip < code.len()), the Resolve re-dispatch keeps ip; C15.R2 checks the guard on every run'),
